@@ -8,11 +8,21 @@
 \*   request first, mapping active)                                     5*7*2     =   70 cells
 \* + mapping shapes noListen / noTarget (ListenClientID / TargetClientID = 0; tunnel state none)
 \*   5*7*7*2                                                                      =  490 cells
-\* + mapping state "expiredJust" (ExpiresAt a fraction of a second ago) everywhere: 8 mapping states
+\* + mapping state "expiredJust" (ExpiresAt 20 ms ago when written) everywhere: 8 mapping states
 \* + order "slowUsage" (usage write-back held by a slow store; mapping changed after the open was
 \*   acknowledged; tunnel state waiting, 7 non-active states)          5*7*7     =  245 cells
 \* + tunnel state "prefixRemote" (T and T+ share 16 bytes; request names T+ on node B)   35 cells
-\* each cell is a deterministic run of <= 6 steps.
+\* round 3:
+\* + mapping state "lapsed" (natural expiry: the ExpiresAt the record carried from the start passes,
+\*   no store write; plain orders, shape std)                         5*7*4*2   =  280 cells
+\* + order "closeAfter" (served tunnel carried data; mapping changed; THEN the tunnel closes - final
+\*   traffic report - and the requester arrives; 7 non-active states)  5*7*7     =  245 cells
+\* + tunnel states "prefixRemoteRev" / "prefixLocal" / "prefixLocalRev" (the victim has the LONG id /
+\*   the request arrives on the node holding both bridges)             3*35      =  105 cells
+\* each cell is a deterministic run of <= 7 steps.
+\* MUT (named seeded deviations, {} here): usageAsync, headerFirst, expirySkew, lookupCache, validityCache,
+\*   closeStaleCopy (one TunnelOpen_show_<mut>.cfg each, all must FAIL; TunnelOpen_show_all.cfg checks in one
+\*   run, which must PASS, that every one of them - and the as-found tree - is exhibited), authLast
 \* FIXES also knows "bindMappingPoll" (second half of patches/C04-3: the comparison on the record
 \* found while polling).
 \* FIXES / MASKED:  {} / TRUE  = tunnox-core as found (invariants hold "or a named deviation fired")
@@ -22,7 +32,7 @@ CONSTANTS
   FIXES = @@FIXES@@
   Idents = {"none", "noneHs", "listen", "target", "stranger"}
   Creds = {"idOnly", "rightSecret", "wrongSecret", "resume", "nothing", "otherId", "otherSecret"}
-  MStates = {"active", "revoked", "expired", "expiredJust", "inactive", "error", "suspended", "missing"}
+  MStates = {"active", "revoked", "expired", "expiredJust", "lapsed", "inactive", "error", "suspended", "missing"}
   Shapes = {"std", "noListen", "noTarget"}
   MUT = {}
   TStates = @@TSTATES@@
